@@ -57,7 +57,8 @@ def run(ctx, spec):
 
 PROPS = {"C06": dict(
     lean_modules=["Vore.Props.C06"],
-    theorems=["Vore.C06_splice", "Vore.C06_mode_nothing", "Vore.C06_mode_new", "Vore.C06_mode_overwrite", "Vore.C06_find_pure"],
+    theorems=["Vore.C06_splice", "Vore.C06_mode_nothing", "Vore.C06_mode_new", "Vore.C06_mode_overwrite", "Vore.C06_find_pure",
+              "Vore.C06_run_frame", "Vore.C06_run_single"],
     run=run,
     assumptions=["POSIX semantics of O_TRUNC and seek+write; os.ReadFile; the real file system is exercised, not proved"],
     manifest=dict(
@@ -66,7 +67,11 @@ PROPS = {"C06": dict(
              "every matched span substituted and every other byte kept — with no side hypothesis (ordering and ranges "
              "come from C03) (C06_splice); over an abstract file system: NOTHING changes nothing, NEW sets only "
              "<file>.vored to the splice, OVERWRITE sets only the file to the splice, find commands change nothing "
-             "(C06_mode_*, C06_find_pure). Correspondence: the real RunFiles is run in a scratch directory for every "
+             "(C06_mode_*, C06_find_pure); lifted to whole runs of any program over any LIST of paths, a path possibly listed "
+             "twice (runFilesL, commands outermost as in RunFiles): NOTHING changes no file, NEW changes nothing except "
+             "<f>.vored for listed f (a searched file stays byte-identical unless it is itself the .vored of another listed "
+             "file), OVERWRITE changes nothing except the listed files (C06_run_frame, by induction over commands and "
+             "files). Correspondence: the real RunFiles is run in a scratch directory for every "
              "mode (replacements longer/shorter/empty, zero matches, stale .vored, bystander file, several commands) and "
              "the directory snapshot and matches are compared with the model's.",
         note="Partial in the sense of DESIGN §6: the file system is abstract in the theorem; O_TRUNC/seek/write are "
